@@ -46,6 +46,11 @@ type Plan struct {
 	// at most a third of the body per Read, the last bytes with io.EOF). All
 	// three are legal Readers. Drawn per run when the engine leaves it empty.
 	Reader string `json:"reader,omitempty"`
+	// EnumBatch: the page size blobserver.EnumerateAll asks stores for (1000
+	// in perkeep, any positive size is legal). Drawn per run when the engine
+	// leaves it 0; applied by the engines through engines/knobs (the
+	// accessor exists only under the overlay). 0 in a replay file = 1000.
+	EnumBatch int `json:"enumBatch,omitempty"`
 }
 
 // Violation is a property violation found by a run.
